@@ -254,7 +254,11 @@ CLAIMED = {
         'compiler\'s reader as the same direction, caller-allocation, nullable, optional, skip and transfer '
         '(C15_parameter_flags_roundtrip), scope, closure and destroy likewise (C15_callback_links_roundtrip), and nullability, skip and '
         'transfer of every return value (C15_return_flags_roundtrip); the reader as found is refuted '
-        '(C15_inout_nullable_refuted_before_fix, fix e1eedbc). Tie: GIRs '
+        '(C15_inout_nullable_refuted_before_fix, fix e1eedbc). ARRAYS: what the writer model of C07 (Model/C07T.write_ty, tied to '
+        'GIRWriter._write_type) says about an array is what a model of the compiler\'s reader (Model/C15T.c_read_array: girparser.c '
+        'start_type, array branch, with atoi) takes from it - the kind, and for C arrays zero-termination, length index and fixed size, for '
+        'every combination and magnitude (C15_array_attributes_roundtrip); the reader model is compared inside Coq with what the typelibs of '
+        'the run say about every array of every scanner-written GIR. Tie: GIRs '
         'written by the real scanner passes for six generators (annotated callables, runtime-dump worlds, structure/virtual-method '
         'worlds, declaration worlds, constants cast to every kind of type with unions, structures with anonymous, nested and '
         'function-pointer members) and the 12 shipped tests/scanner/*-expected.gir files (output of the real C lexer; includes '
